@@ -7,7 +7,8 @@ LEAN_MODULES = ["QExPy.Props.C03"]
 LEMMA_MODULES = ["QExPy.Lemmas.Rules"]
 THEOREMS = ["QExPy.rule1", "QExPy.rule2", "QExPy.rule_pow_const", "QExPy.C03_diff_correct",
             "QExPy.C03_not_mem", "QExPy.C03_self", "QExPy.C03_pow_const_base",
-            "QExPy.C03_log_base", "QExPy.C03_deg_eval", "QExPy.C03_deg_arg"]
+            "QExPy.C03_log_base", "QExPy.C03_deg_eval", "QExPy.C03_deg_arg",
+            "QExPy.C03_sind", "QExPy.C03_sind_value"]
 RULE = ("seeded formula DAGs (1-5 measurements, 1-8 operators incl. degree variants, both log "
         "arities, number / (value,error)-pair operands on either side, shared sub-expressions); "
         "r.derivative(m) for every source, one unrelated measurement and r itself vs Expr.diff in "
